@@ -83,6 +83,9 @@ pub struct BlockCfg {
     pub check_scope: Sc,
     /// blocks without any check exist too (facts and rules only)
     pub has_check: bool,
+    /// the block also states, as plain facts, what rules of the authorizer and of earlier blocks derive
+    /// (the same fact then exists under several origins)
+    pub states_derived: bool,
 }
 
 #[derive(Clone, Debug)]
@@ -156,6 +159,14 @@ pub fn mk_block(i: usize, cfg: &BlockCfg, shape: &CheckShape) -> b::BlockBuilder
     ));
     if cfg.has_check {
         bb.checks.push(mk_check(shape, cfg.check_scope));
+    }
+    if cfg.states_derived {
+        bb.facts.push(b::fact("da", &[b::int(0)]));
+        bb.facts.push(b::fact("da", &[b::int(AUTH_FACT)]));
+        for k in 0..i {
+            bb.facts.push(b::fact(&format!("d{k}"), &[b::int(k as i64)]));
+            bb.facts.push(b::fact(&format!("d{k}"), &[b::int(0)]));
+        }
     }
     bb.scopes = cfg.block_scope.scopes();
     bb
@@ -377,8 +388,9 @@ pub fn token_case(cfgs: &[BlockCfg], shape: &CheckShape) -> Result<TokenCase, St
         .enumerate()
         .map(|(i, c)| {
             format!(
-                "B{i}[{:?} block:{} rule:{} check:{}]",
+                "B{i}[{:?}{} block:{} rule:{} check:{}]",
                 c.party,
+                if c.states_derived { " +states-derived-facts" } else { "" },
                 c.block_scope.show(),
                 c.rule_scope.show(),
                 if c.has_check { c.check_scope.show() } else { "(no check)" }
@@ -427,13 +439,13 @@ pub fn run(tier: Tier) {
         for &bs0 in &block_opts {
             for &rs0 in &block_opts {
                 for &cs0 in &block_opts {
-                    let b0 = BlockCfg { party: Party::First, block_scope: bs0, rule_scope: rs0, check_scope: cs0, has_check: true };
+                    let b0 = BlockCfg { party: Party::First, block_scope: bs0, rule_scope: rs0, check_scope: cs0, has_check: true, states_derived: false };
                     token_cfgs.push((vec![b0.clone()], shape.clone()));
                     for party in [Party::First, Party::ThirdK1] {
                         for &bs1 in &block_opts {
                             for &rs1 in &block_opts {
                                 for &cs1 in &block_opts {
-                                    let b1 = BlockCfg { party, block_scope: bs1, rule_scope: rs1, check_scope: cs1, has_check: true };
+                                    let b1 = BlockCfg { party, block_scope: bs1, rule_scope: rs1, check_scope: cs1, has_check: true, states_derived: false };
                                     token_cfgs.push((vec![b0.clone(), b1], shape.clone()));
                                 }
                             }
@@ -476,7 +488,7 @@ pub fn run(tier: Tier) {
             }
             for v in pos_sets {
                 let cfgs: Vec<BlockCfg> = (0..3)
-                    .map(|i| BlockCfg { party: ps[i], block_scope: v[3 * i], rule_scope: v[3 * i + 1], check_scope: v[3 * i + 2], has_check: true })
+                    .map(|i| BlockCfg { party: ps[i], block_scope: v[3 * i], rule_scope: v[3 * i + 1], check_scope: v[3 * i + 2], has_check: true, states_derived: false })
                     .collect();
                 token_cfgs.push((cfgs.clone(), shape.clone()));
                 // the same token with some blocks carrying facts and rules only (<= 1 deviation from the default scopes)
@@ -485,6 +497,13 @@ pub fn run(tier: Tier) {
                         let mut c2 = cfgs.clone();
                         for i in 0..3 {
                             c2[i].has_check = mask[i];
+                        }
+                        token_cfgs.push((c2, shape.clone()));
+                    }
+                    for mask in [[false, true, false], [false, false, true], [false, true, true]] {
+                        let mut c2 = cfgs.clone();
+                        for i in 0..3 {
+                            c2[i].states_derived = mask[i];
                         }
                         token_cfgs.push((c2, shape.clone()));
                     }
